@@ -76,15 +76,15 @@ func pbFrame(env proto.Message) ([]byte, error) {
 }
 
 var pbNumeric = map[protoreflect.Kind][]uint64{
-	protoreflect.Uint32Kind:  {0, 1, 0xff, 0x100, 0xffff, 0x10000, math.MaxUint32},
-	protoreflect.Fixed32Kind: {0, 1, 0xff, 0x100, 0xffff, 0x10000, math.MaxUint32},
-	protoreflect.Uint64Kind:  {0, 1, 1 << 63, math.MaxUint64},
-	protoreflect.Fixed64Kind: {0, 1, 1 << 63, math.MaxUint64},
-	protoreflect.Int32Kind:   {0, 1, uint64(math.MaxInt32), 1<<64 - 1, 1<<64 - 1<<31},
-	protoreflect.Sint32Kind:  {0, 1, uint64(math.MaxInt32), 1<<64 - 1, 1<<64 - 1<<31},
+	protoreflect.Uint32Kind:   {0, 1, 0xff, 0x100, 0xffff, 0x10000, math.MaxUint32},
+	protoreflect.Fixed32Kind:  {0, 1, 0xff, 0x100, 0xffff, 0x10000, math.MaxUint32},
+	protoreflect.Uint64Kind:   {0, 1, 1 << 63, math.MaxUint64},
+	protoreflect.Fixed64Kind:  {0, 1, 1 << 63, math.MaxUint64},
+	protoreflect.Int32Kind:    {0, 1, uint64(math.MaxInt32), 1<<64 - 1, 1<<64 - 1<<31},
+	protoreflect.Sint32Kind:   {0, 1, uint64(math.MaxInt32), 1<<64 - 1, 1<<64 - 1<<31},
 	protoreflect.Sfixed32Kind: {0, 1, uint64(math.MaxInt32), 1<<64 - 1, 1<<64 - 1<<31},
-	protoreflect.Int64Kind:   {0, 1, uint64(math.MaxInt64), 1<<64 - 1, 1 << 63},
-	protoreflect.Sint64Kind:  {0, 1, uint64(math.MaxInt64), 1<<64 - 1, 1 << 63},
+	protoreflect.Int64Kind:    {0, 1, uint64(math.MaxInt64), 1<<64 - 1, 1 << 63},
+	protoreflect.Sint64Kind:   {0, 1, uint64(math.MaxInt64), 1<<64 - 1, 1 << 63},
 	protoreflect.Sfixed64Kind: {0, 1, uint64(math.MaxInt64), 1<<64 - 1, 1 << 63},
 }
 
